@@ -19,6 +19,7 @@ From Coq Require Import ZArith List Bool.
 From Bisturi Require Import Base.Bytes Kernel.IntCodec Kernel.Align Kernel.Frag Model.Value Model.Decl Model.Unpack Model.Pack
                             Model.Wf Model.Wf2 Model.Wf3 Model.WfBits Model.Codegen
                             Proofs.FragProofs Proofs.RoundTrip Proofs.RoundTripFull.
+From Bisturi Require Proofs.EqMore.
 Import ListNotations. Open Scope Z_scope.
 
 (* the property, for the code each class runs (generated or generic), bit runs included *)
@@ -103,6 +104,17 @@ Example C01_example_full :   exists k s e t,
     ct_sizes_ok ct = true /\ wf_bytes rtf_ex_raw /\ trace_from 2 t /\ trace_in rtf_ex_raw t /\
     pack_any_top 3 true rt_dl0 ct 0 s = PBytes [171; 7; 18; 52; 1; 2] (VPkt 0 s).
 Proof. exact roundtrip_any_nonvacuous. Qed.
+(* the nesting budget (`fuel`, a device of the model: python's recursion has none) never shows in a result: a parse that
+   succeeds succeeds with the same value, end offset and consumed chunks under every larger budget, and two successful
+   parses of one input agree whatever their budgets *)
+Theorem C01_unpack_fuel_irrelevant : forall host ct raw f f' c off v e t, (f <= f')%nat ->
+  unpack_any f host ct raw c off = POk v e t -> unpack_any f' host ct raw c off = POk v e t.
+Proof. exact Proofs.EqMore.unpack_any_fuel_le. Qed.
+Theorem C01_unpack_deterministic : forall host ct raw f1 f2 c off v1 e1 t1 v2 e2 t2,
+  unpack_any f1 host ct raw c off = POk v1 e1 t1 -> unpack_any f2 host ct raw c off = POk v2 e2 t2 ->
+  v1 = v2 /\ e1 = e2 /\ t1 = t2.
+Proof. exact Proofs.EqMore.unpack_any_deterministic. Qed.
+
 Print Assumptions C01_roundtrip.
 Print Assumptions C01_roundtrip_generic.
 Print Assumptions C01_describe_bits_ok.
@@ -110,3 +122,5 @@ Print Assumptions C01_roundtrip_partial.
 Print Assumptions C01_trace_symmetry.
 Print Assumptions C01_describe_distinct.
 Print Assumptions C01_offset_refuted.
+Print Assumptions C01_unpack_fuel_irrelevant.
+Print Assumptions C01_unpack_deterministic.
